@@ -709,6 +709,10 @@ func (w *walker) assign(x *ast.AssignStmt) {
 				return
 			}
 		}
+		if x.Tok != token.ASSIGN && x.Tok != token.DEFINE { // this.f |= e, this.f += e, …
+			w.emit("assign " + w.fieldTok(f) + " " + x.Tok.String() + " " + w.text(rhs))
+			return
+		}
 		w.emit("assign " + w.fieldTok(f) + " = " + w.text(rhs))
 		return
 	}
@@ -841,6 +845,7 @@ var (
 	reIfPos = regexp.MustCompile(`^if (local\d+) > 0$`)
 	reCase = regexp.MustCompile(`^case (\d+)$`)
 	reAsg  = regexp.MustCompile(`^assign (\w+):(\S+) = (.+)$`)
+	reAsgOp = regexp.MustCompile(`^assign (\w+):(\S+) ([-+|&^*/%<>]+=) (.+)$`)
 	reAsgN = regexp.MustCompile(`^assign (\w+):(\S+) = (\d+)$`)
 )
 
@@ -920,6 +925,9 @@ func leanTok(t string) string {
 	}
 	if m := reCase.FindStringSubmatch(t); m != nil {
 		return ".cs " + m[1]
+	}
+	if m := reAsgOp.FindStringSubmatch(t); m != nil {
+		return fmt.Sprintf(".asgop %s %s %s %s", q(m[1]), q(m[2]), q(m[3]), q(m[4]))
 	}
 	if m := reAsgN.FindStringSubmatch(t); m != nil {
 		return fmt.Sprintf(".asgn %s %s %s", q(m[1]), q(m[2]), m[3])
@@ -1019,6 +1027,14 @@ func main() {
 			b.WriteString(fmt.Sprintf("def %stok_%s : List Step.Tok :=\n  %s\n\n", side.def[:1], t, leanTokList(sk)))
 		}
 	}
+	// the builders that may be called more than once on one object
+	b.WriteString("def setters : List (String × List Step.Tok) := [\n")
+	var ss []string
+	for _, st := range [][2]string{{"ProfilePack", "SetProfile"}, {"ProfileStepSplitPack", "SetProfile"}, {"ErrorSnapPack1", "SetProfile"},
+		{"ErrorSnapPack1", "SetStack"}, {"MessageStepX", "SetCtr"}, {"SqlStep_3", "SetTrue"}} {
+		ss = append(ss, fmt.Sprintf("  (%s, %s)", q(st[0]+"."+st[1]), leanTokList(skeleton(st[0], st[1]))))
+	}
+	b.WriteString(strings.Join(ss, ",\n") + "]\n\n")
 	b.WriteString("end Gen.C08\n")
 	if err := os.WriteFile(*out, []byte(b.String()), 0o644); err != nil {
 		die("%v", err)
